@@ -135,7 +135,7 @@ META = {
         "technique": 'Lean 4 proof (inductive invariant over operation sequences) + differential correspondence check',
     },
     "C16": {
-        "text": "Lean 4 theorems over M3: c16_admit_iff (non-strict request admitted iff the free state contains the amount), c16_single_fraction (full); c16_grant_agrees_partial, c16_claim_nostop_partial, c16_all_partial, c16_scatter_partial, c16_min_groups_partial, c16_strict_partial (explicit hypotheses on solver determinism / tie-break bounds / uncoupled descriptors); recorded finding F30 (strict policy refused by the solver's tie-break term)" + CORR,
+        "text": "Lean 4 theorems over M3, full strength: c16_admit_iff (non-strict request admitted iff the free state contains the amount), c16_single_fraction, c16_claim_nostop (try_allocate never stops - no failing unwrap/assert/index, no non-termination of the claim loops incl. tight and the strict policies - in every reachable state for every policy and resource kind; termination of the tight loop by an explicit measure), c16_all (a granted all holds every index whole), c16_scatter (closed formula of the per-group contributions for any free state: empty groups skipped, several rounds; groups used = min(units, non-empty groups)); partial with explicit hypotheses: c16_grant_agrees_partial (solver determinism), c16_min_groups_partial, c16_strict_partial (tie-break bounds); recorded finding F30 (strict policy refused by the solver's tie-break term)" + CORR,
         "design_ref": 'DESIGN.md 7/C16',
         "note": "trusted: as C04; the group set chosen by HiGHS is an input validated for feasibility and (brute force over group subsets, within HiGHS's MIP gap) optimality; policies on coupled descriptors are compared, not proved",
         "technique": 'Lean 4 proof (admission/claim lemmas for all free states) + differential correspondence check with brute-force reference',
